@@ -151,8 +151,10 @@ def _extend_props():
     import contracts.stages as b_
     import contracts.stages2 as c_
     import contracts.factories as fct
-    want = {'MapDataset', 'SliceDataset', 'ConcatenateDataset', 'BatchDataset', 'UnbatchDataset', 'FilterDataset'}
-    for mod in (a, b_, c_):
+    import contracts.cache as cch
+    want = {'MapDataset', 'SliceDataset', 'ConcatenateDataset', 'BatchDataset', 'UnbatchDataset', 'FilterDataset',
+            'CacheDataset'}
+    for mod in (a, b_, c_, cch):
         for con in mod.CONTRACTS:
             if con.cls in want:
                 for meth, vs in con.methods.items():
